@@ -21,6 +21,7 @@ var c11Goals = []string{"t(X, Y, Z)", "(t(X, Y, Z) ; t(X, Z, Y))", "(t(X, Y, Z),
 var c11Instances = []string{"S", "[]", "[_|_]", "[E]", "[E1, E2|T]"}
 
 func c11Work(w *h.W) {
+	c11CountSweep(w)
 	c11Repr(w)
 	nv := len(c11Vals)
 	maxFacts := w.Pick(2, 3)
@@ -115,6 +116,7 @@ func c11Repr(w *h.W) {
 	reprs := []string{
 		"Y = [a, b, c]", "Y = \"abc\"", "atom_chars(abc, Y)", "append([a], [b, c], Y)", "findall(E, member(E, [a, b, c]), Y)", "Y = [a|T], T = \"bc\"",
 		"Y = [a, b, d]", "Y = \"abd\"", "Y = f(\"abc\")", "Y = f([a, b, c])", "atom_codes(abc, Y)", "Y = [97, 98, 99]", "Y = []", "Y = \"\"", "Y = [z|\"ab\"]", "Y = [z, a, b]",
+		"Y = \"日本\"", "Y = ['日', '本']", "atom_chars('日本', Y)", "Y = ['日'|T], T = \"本\"",
 	}
 	n := len(reprs)
 	maxFacts := w.Pick(3, 4)
@@ -144,6 +146,43 @@ func c11Repr(w *h.W) {
 	}
 }
 
+// (c) sweep of the NUMBER of solutions 0..80 (200): facts whose witnesses cycle through ground terms,
+// variants of each other and neighbours that a sort by standard order would interleave
+func c11CountSweep(w *h.W) {
+	patterns := [][]string{
+		{"g(_, 2)", "g(_, 1)", "g(_, 2)"},
+		{"a", "b", "a", "c"},
+		{"f(_)", "f(_)", "f(1)"},
+		{"A-a", "B-b", "C-a"},
+		{"[_|x]", "[_|y]", "\"ab\"", "[a, b]"},
+	}
+	maxN := w.Pick(80, 200)
+	for pi, pat := range patterns {
+		for n := 0; n <= maxN; n++ {
+			if n > 12 && n%4 != 1 && !(n >= 60 && n <= 70) && !(n >= 124 && n <= 132) && !w.Thorough() {
+				continue // quick: every 4th size, all sizes around 64 and 128
+			}
+			if !w.Mine() {
+				continue
+			}
+			if w.Expired() {
+				return
+			}
+			cls := []T{rd(":- dynamic(t/2)")}
+			for i := 0; i < n; i++ {
+				cls = append(cls, rd(fmt.Sprintf("t(%d, %s)", i, pat[i%len(pat)])))
+			}
+			pc := &h.ProgCase{DQ: "chars", Budget: 400000, Steps: []h.ProgStep{h.Consult(cls...)}}
+			for _, q := range []string{"bagof(X, t(X, Y), L)", "setof(X, t(X, Y), L)", "bagof(X-Z, t(X, Y-Z), L)", "findall(X-Y, t(X, Y), L)", "bagof(X, t(X, g(Y, Z)), L)"} {
+				st := h.Query(rd(q), 12)
+				st.Multiset = true
+				pc.Steps = append(pc.Steps, st)
+			}
+			runProgCase(w, "allsol-count", pc, n+pi)
+		}
+	}
+}
+
 func sprintf(f, a string) string {
 	out := ""
 	for i := 0; i < len(f); i++ {
@@ -162,7 +201,7 @@ var _ = ref.Nil
 func init() {
 	h.Register(&h.Check{
 		ID: "C11",
-		Rule: "all fact bases t(Index, Y, Z) of <= N facts whose witness arguments range over {a, b, A, B, f(A)} (clause-local variables: ground, partially bound, variant and non-variant witnesses, duplicates) x {findall, bagof, setof} x 5 templates x 3 goal shapes (plain, disjunctive, filtered) x every ^-quantification of {Y, Z} (incl. nested and compound) x 5 instance arguments (unbound, [], partial lists) + 12 nested / pre-bound / aliased-quantifier queries; (b) representations: all sequences of 2..3 (4) facts whose witness is one of 16 constructions of the same and of neighbouring lists (literal, double-quoted string, atom_chars/atom_codes output, append/findall output, string tail, nested in a compound) x 7 bagof/setof/findall queries. Non-trivial = the reference yields an answer or error; distinct = program + query text.",
+		Rule: "all fact bases t(Index, Y, Z) of <= N facts whose witness arguments range over {a, b, A, B, f(A)} (clause-local variables: ground, partially bound, variant and non-variant witnesses, duplicates) x {findall, bagof, setof} x 5 templates x 3 goal shapes (plain, disjunctive, filtered) x every ^-quantification of {Y, Z} (incl. nested and compound) x 5 instance arguments (unbound, [], partial lists) + 12 nested / pre-bound / aliased-quantifier queries; (b) representations: all sequences of 2..3 (4) facts whose witness is one of 20 constructions of the same and of neighbouring lists (ASCII and non-ASCII) (literal, double-quoted string, atom_chars/atom_codes output, append/findall output, string tail, nested in a compound) x 7 bagof/setof/findall queries; (c) a sweep of the number of solutions 0..80 (200; quick: every 4th size and all sizes around 64 and 128) for 5 cyclic witness patterns (ground, variants of each other, neighbours in standard order) x 5 queries. Non-trivial = the reference yields an answer or error; distinct = program + query text.",
 		Explanation: "state = one fact base in a fresh real interpreter; transition = one all-solutions query run to exhaustion; findall answers compared as sequences, bagof/setof answers (one per witness class) as a multiset since group order is unconstrained; the reference implements ISO 8.10 literally (free variables per 7.1.1.4, variant classes, witness unification, sort + dedupe for setof)",
 		Assumptions: []string{"reference ISO 8.10 algorithm in ref/solve (self-checked against the ISO examples)", "cases where a setof/3 result depends on the order of two distinct unbound variables are inconclusive"},
 		Work:        c11Work,
